@@ -28,8 +28,17 @@ def _other(OpS, name, idx):
     return o
 
 
+class _Digest(bytes):
+    """stand-in for a SHA-512/256 digest: injective in the hashed text, and so is its 4-byte prefix (the selector)"""
+
+    def __getitem__(self, k):
+        if isinstance(k, slice) and k.start in (None, 0) and k.stop == 4 and k.step is None:
+            return b"SEL(" + bytes(self)[2:-1] + b")"
+        return bytes.__getitem__(self, k)
+
+
 def fake_checksum(b: bytes) -> bytes:
-    return b"H(" + bytes(b) + b")"
+    return _Digest(b"H(" + bytes(b) + b")")
 
 
 def fake_decode_address(a: str) -> bytes:
@@ -111,6 +120,13 @@ def r12_1_sites(ctx):
     scenarios.append(("non-ascii string vs hex", [BYTES[5], BYTES[6], BYTES[5], BYTES[7], BYTES[7]]))
     scenarios.append(("six repeated byte constants", [b for b in [BYTES[0], BYTES[15], BYTES[16], BYTES[17], BYTES[18], BYTES[19]] for _ in range(2)] + [BYTES[8], BYTES[9]]))
     scenarios.append(("addr and method", [BYTES[11], BYTES[11], BYTES[12], BYTES[13], BYTES[13], BYTES[14]]))
+    # the same operand text under different pseudo-ops denotes different values
+    same = '"add(uint64,uint64)uint64"'
+    scenarios.append(("byte and method with the same text", [("byte", same), ("method_signature", same), ("byte", same), ("method_signature", same)]))
+    scenarios.append(("method then byte with the same text", [("method_signature", same), ("byte", same), ("method_signature", same), ("byte", same), ("byte", '"f()void"'), ("method_signature", '"f()void"')]))
+    scenarios.append(("byte and addr with the same template", [("byte", "TMPL_D"), ("addr", "TMPL_D"), ("byte", "TMPL_D"), ("addr", "TMPL_D")]))
+    # a signature is hashed exactly as written
+    scenarios.append(("method signatures differing in blanks", [("method_signature", '"add(uint64, uint64)uint64"'), ("method_signature", same), ("method_signature", '"add(uint64, uint64)uint64"'), ("method_signature", same), ("method_signature", '" f()void"')]))
     n_rand = 60 if ctx.tier == "quick" else 600
     for i in range(n_rand):
         k = rnd.randint(1, 14)
@@ -275,6 +291,7 @@ def run(ctx):
     from rules import c04 as _c04
 
     _c04.r04_5_final_sweep(ctx)  # option plumbing: constants pass only with version >= 3, after the sweep
+    _c04.r04_1_op_table(ctx)  # intc_N / bytec_N / pushint / pushbytes members are spelled as the ops they name (shared with C04)
     return (
         "Abstract evaluation of createConstantBlocks and its literal readers on op lists mixing repeated/unique, small/large, named, template and differently spelled constants; "
         "each load site of the result is resolved through the emitted block and compared with an independent decoder of the TEAL literal grammar; reader/emitter form tables; "
